@@ -230,7 +230,8 @@ fn run_one_d<D: ChunkData>(out: &mut Out, case: &Value, rs: &RunSpec) -> Option<
     }
     let req = req.body(()).expect("request");
     let extra = case.get("extra").and_then(|e| e.as_u64()).unwrap_or(4);
-    let max_polls = case.get("max_polls").and_then(|e| e.as_u64()).unwrap_or(20_000);
+    // honest scripted streams need < 100 polls; a body still going after this budget is looping
+    let max_polls = case.get("max_polls").and_then(|e| e.as_u64()).unwrap_or(400);
 
     let t0 = secs_now();
     let resp = catch(|| http_serve::serve(ent, &req));
@@ -273,7 +274,7 @@ fn run_one_d<D: ChunkData>(out: &mut Out, case: &Value, rs: &RunSpec) -> Option<
             }
             after_terminal += 1;
         }
-        if polls >= max_polls {
+        if polls >= max_polls || log.lock().unwrap().calls > 64 {
             stopped = "max_polls";
             break;
         }
